@@ -134,6 +134,18 @@ def walk_validated(obj: Any, data: Any, path: str, problems: List[Dict[str, Any]
         problems.append({"path": path, "problem": "value-differs", "got": repr(obj)[:80], "want": repr(data)[:80]})
 
 
+def custom_values(case: Dict[str, Any]) -> Any:
+    """values the resolvers return for custom scalars: strings for scalars configured as `str`, any JSON otherwise"""
+    as_str = set(case.get("scalar_str") or [])
+
+    def value(name: str, rng: Any) -> Any:
+        if name in as_str:
+            return rng.choice(["2020-01-01T00:00:00", "c", ""])
+        return rng.choice(["2020-01-01T00:00:00", 5, {"k": [1, None]}, "c"])
+
+    return value
+
+
 def generate_only(root: Path, case: Dict[str, Any]) -> Dict[str, Any]:
     """phase 1: generation; returns {"gen": "ok", ...} or the classified exception"""
     try:
@@ -187,7 +199,7 @@ def run_case(root: Path, case: Dict[str, Any]) -> Dict[str, Any]:
             rec["outcome"] = "no-method"
             continue
         log: List[Dict[str, Any]] = []
-        resolver = resolve.Resolver(call.get("seed", 0), null_p=case.get("null_p", 0.2))
+        resolver = resolve.Resolver(call.get("seed", 0), null_p=case.get("null_p", 0.2), custom_scalar_value=custom_values(case))
 
         def handler(request: Any) -> Any:
             body = json.loads(request.content)
